@@ -415,3 +415,106 @@ Section Codec.
     exists [], [], false. repeat split; auto. left. reflexivity.
   Qed.
 End Codec.
+
+(* ------------------------------------------------------------------ the driver's own encoder: SegmentCodec.encode *)
+Lemma In_firstn : forall (n : nat) (l : list Z) x, In x (firstn n l) -> In x l.
+Proof. induction n; intros l x H; [destruct H|]. destruct l; [destruct H|]. destruct H; [left; assumption|right; apply IHn; assumption]. Qed.
+
+Lemma Forall_firstn_ok : forall (P : Z -> Prop) n (l : list Z), Forall P l -> Forall P (firstn n l).
+Proof. intros P n l H. rewrite Forall_forall in *. intros x Hx. apply H. eapply In_firstn. exact Hx. Qed.
+
+Lemma In_skipn : forall (n : nat) (l : list Z) x, In x (skipn n l) -> In x l.
+Proof. induction n; intros l x H; [exact H|]. destruct l; [destruct H|]. right. apply IHn. exact H. Qed.
+
+Lemma Forall_skipn_ok : forall (P : Z -> Prop) n (l : list Z), Forall P l -> Forall P (skipn n l).
+Proof. intros P n l H. rewrite Forall_forall in *. intros x Hx. apply H. eapply In_skipn. exact Hx. Qed.
+
+Lemma split_payloads_S : forall f msg, split_payloads (S f) msg =
+  if blen msg <=? MAX_PAYLOAD_LENGTH then [msg]
+  else firstn (Z.to_nat MAX_PAYLOAD_LENGTH) msg :: split_payloads f (skipn (Z.to_nat MAX_PAYLOAD_LENGTH) msg).
+Proof. reflexivity. Qed.
+
+Lemma split_payloads_concat : forall fuel msg, concat (split_payloads fuel msg) = msg.
+Proof.
+  induction fuel; intros msg.
+  - change (split_payloads 0 msg) with [msg]. cbn [concat]. apply app_nil_r.
+  - rewrite split_payloads_S. destruct (blen msg <=? MAX_PAYLOAD_LENGTH).
+    + cbn [concat]. apply app_nil_r.
+    + cbn [concat]. rewrite IHfuel. apply firstn_skipn.
+Qed.
+
+Lemma split_payloads_ok : forall fuel msg, (length msg <= fuel)%nat -> Forall byte_ok msg ->
+  Forall (fun p => Forall byte_ok p /\ blen p <= MAX_PAYLOAD_LENGTH) (split_payloads fuel msg).
+Proof.
+  induction fuel; intros msg Hl Hb.
+  - change (split_payloads 0 msg) with [msg]. constructor; [|constructor]. split; [assumption|]. unfold blen, MAX_PAYLOAD_LENGTH. lia.
+  - rewrite split_payloads_S. destruct (blen msg <=? MAX_PAYLOAD_LENGTH) eqn:E.
+    + constructor; [|constructor]. split; [assumption|lia].
+    + constructor.
+      * split; [apply Forall_firstn_ok; assumption|]. unfold blen. rewrite firstn_length. unfold MAX_PAYLOAD_LENGTH. lia.
+      * apply IHfuel; [|apply Forall_skipn_ok; assumption]. rewrite skipn_length.
+        unfold blen, MAX_PAYLOAD_LENGTH in *. lia.
+Qed.
+
+Section Messages.
+  Variable compression : bool.
+  Variable compress : list Z -> list Z.
+  Variable decompress : list Z -> Z -> list Z.
+  Hypothesis decompress_compress : forall x, decompress (compress x) (blen x) = x.
+  Hypothesis compress_bytes : forall x, Forall byte_ok x -> Forall byte_ok (compress x).
+
+  Definition msg_segs (msg : list Z) : list seg :=
+    let ps := split_payloads (length msg) msg in
+    let sc := match ps with [_] => true | _ => false end in
+    map (fun p => (p, sc)) ps.
+
+  Lemma encode_wire : forall msg, encode compression compress msg = wire compression compress (msg_segs msg).
+  Proof.
+    intros. unfold encode, msg_segs, wire. cbv zeta. rewrite map_map. reflexivity.
+  Qed.
+
+  Lemma msg_segs_payloads : forall msg, payloads (msg_segs msg) = msg.
+  Proof.
+    intros. unfold payloads, msg_segs. cbv zeta. rewrite map_map. cbn [fst]. rewrite map_id. apply split_payloads_concat.
+  Qed.
+
+  Lemma msg_segs_ok : forall msg, Forall byte_ok msg -> segs_ok (msg_segs msg).
+  Proof.
+    intros msg H. unfold segs_ok, msg_segs. cbv zeta. rewrite Forall_map. cbn [fst].
+    apply (split_payloads_ok (length msg) msg); [lia|assumption].
+  Qed.
+
+  Definition all_segs (fs : list frame) : list seg := concat (map (fun f => msg_segs (enc f)) fs).
+
+  Lemma all_segs_wire : forall fs,
+    wire compression compress (all_segs fs) = concat (map (fun f => encode compression compress (enc f)) fs).
+  Proof.
+    induction fs as [|f fs IH]; [reflexivity|]. unfold all_segs in *. cbn [map concat].
+    rewrite wire_app, IH, encode_wire. reflexivity.
+  Qed.
+
+  Lemma all_segs_payloads : forall fs, payloads (all_segs fs) = frames_bytes fs.
+  Proof.
+    induction fs as [|f fs IH]; [reflexivity|]. unfold all_segs, frames_bytes in *. cbn [map concat].
+    rewrite payloads_app, IH, msg_segs_payloads. reflexivity.
+  Qed.
+
+  Lemma all_segs_ok : forall fs, Forall (fun f => Forall byte_ok (enc f)) fs -> segs_ok (all_segs fs).
+  Proof.
+    induction fs as [|f fs IH]; intros H; [constructor|]. inversion H; subst. unfold all_segs, segs_ok in *. cbn [map concat].
+    apply Forall_app. split; [apply msg_segs_ok; assumption|apply IH; assumption].
+  Qed.
+
+  Theorem roundtrip_messages : forall (fs : list frame) (chunks : list (list Z)),
+    Forall wf fs -> Forall (fun f => Forall byte_ok (enc f)) fs ->
+    concat chunks = concat (map (fun f => encode compression compress (enc f)) fs) ->
+    exists c, run_cfeed compression decompress (cinit) chunks = (CLive [] [] c, map deliver fs).
+  Proof.
+    intros fs chunks Hwf Hb Hc.
+    apply (roundtrip compression compress decompress decompress_compress compress_bytes (all_segs fs) fs chunks).
+    - apply all_segs_ok. assumption.
+    - assumption.
+    - apply all_segs_payloads.
+    - rewrite all_segs_wire. assumption.
+  Qed.
+End Messages.
